@@ -577,10 +577,21 @@ pub fn listen<S: ?Sized + AsRef<str>, H: crate::ConnectionHandler + Send + Sync 
             let (r, mut w) = stream.split().unwrap();
             let mut br = BufReader::new(r);
             let mut iface: Option<String> = None;
+            // bytes already read past an upgrade request; they belong to the upgraded handler
+            let mut pending: Vec<u8> = Vec::new();
             loop {
-                match handler.handle(&mut br, &mut w, iface.clone()) {
-                    Ok((_, i)) => {
+                let fed = pending.len();
+                let mut rd =
+                    std::io::Read::chain(std::io::Cursor::new(mem::take(&mut pending)), &mut br);
+                match handler.handle(&mut rd, &mut w, iface.clone()) {
+                    Ok((rest, i)) => {
                         iface = i;
+                        if iface.is_some() {
+                            pending = rest;
+                            if !pending.is_empty() && pending.len() != fed {
+                                continue;
+                            }
+                        }
                         match br.fill_buf() {
                             Err(_) => break,
                             Ok([]) => break,
